@@ -96,6 +96,14 @@ def run(ctx):
     if b.returncode != 0:
         raise RuntimeError("drv_decl does not build: " + (b.stdout + b.stderr)[-800:])
     ctx.coverage["rule"] = RULE
+    ctx.assumptions += [
+        "random generation never renders from_.any() in the shapes of finding D16 (a state declared after the "
+        "event; any() combined with other transitions in one expression; event= passed to any(); any() in a base "
+        "class of an inheritance rendering); those shapes are replayed from known_findings.jsonl instead",
+        "order of callbacks inside one group is unconstrained (C02): callback names per group, per-step logs and "
+        "result lists are compared as sorted lists; only guards and validators are made to raise",
+        "event display names (Event(name=...)) and re-assignment of one attribute name are not compared/modelled",
+    ]
 
     if ctx.replay:
         fails = replay_file(ctx, ctx.replay)
